@@ -471,3 +471,428 @@ func indexMapsFollowTheirSlice(c *core.Ctx) {
 	c.Stat("index_pairs", len(pairs))
 	c.Stat("shrinking_functions", n)
 }
+
+// derivedConstructorsCopyEveryField (C02-R11): a constructor that builds a T
+// from another *T field by field (NewClosure from the function template) sets
+// every field that the primary constructors of T set.  A field added to the
+// primary constructor and forgotten here is silently zero in every derived
+// value — a closure that is no longer "named", has no defaults, ...
+func derivedConstructorsCopyEveryField(c *core.Ctx) {
+	p := c.P
+	op := p.Pkg("object")
+	info := op.TypesInfo
+	type lit struct {
+		fn      *types.Func
+		fd      *ast.FuncDecl
+		fields  map[string]bool
+		derived bool
+	}
+	byType := map[*types.Named][]lit{}
+	funcBodies(op, func(fn *types.Func, fd *ast.FuncDecl) {
+		sig := fn.Type().(*types.Signature)
+		if sig.Recv() != nil || sig.Results().Len() < 1 {
+			return
+		}
+		nt := core.NamedOf(sig.Results().At(0).Type())
+		if nt == nil || nt.Obj().Pkg() != op.Types {
+			return
+		}
+		if _, isStruct := nt.Underlying().(*types.Struct); !isStruct {
+			return
+		}
+		derived := false
+		for i := 0; i < sig.Params().Len(); i++ {
+			if core.NamedOf(sig.Params().At(i).Type()) == nt {
+				derived = true
+			}
+		}
+		ast.Inspect(fd.Body, func(n ast.Node) bool {
+			cl, ok := n.(*ast.CompositeLit)
+			if !ok || core.NamedOf(info.TypeOf(cl)) != nt {
+				return true
+			}
+			l := lit{fn: fn, fd: fd, fields: map[string]bool{}, derived: derived}
+			for _, e := range cl.Elts {
+				if kv, ok := e.(*ast.KeyValueExpr); ok {
+					l.fields[exprStr(kv.Key)] = true
+				}
+			}
+			byType[nt] = append(byType[nt], l)
+			return true
+		})
+	})
+	n := 0
+	for nt, ls := range byType {
+		primary := map[string]bool{}
+		for _, l := range ls {
+			if !l.derived {
+				for f := range l.fields {
+					primary[f] = true
+				}
+			}
+		}
+		for _, l := range ls {
+			if !l.derived {
+				continue
+			}
+			n++
+			var missing []string
+			for f := range primary {
+				if !l.fields[f] {
+					missing = append(missing, f)
+				}
+			}
+			sortStrings(missing)
+			c.Check(len(missing) == 0, "object."+l.fn.Name()+"|copies-every-field-of-"+nt.Obj().Name(), posOf(p, l.fd),
+				l.fn.Name()+" builds a "+nt.Obj().Name()+" from another one and sets every field the primary constructors set"+ifs(len(missing) > 0, "; missing: "+strings.Join(missing, ", ")))
+		}
+	}
+	c.Stat("derived_constructors", n)
+}
+
+func sortStrings(s []string) {
+	for i := 1; i < len(s); i++ {
+		for j := i; j > 0 && s[j] < s[j-1]; j-- {
+			s[j], s[j-1] = s[j-1], s[j]
+		}
+	}
+}
+
+// cellsAreMadeByTheVM (C02-R12): object.NewCell is called only by the dispatch
+// function (MakeCell).  A cell made anywhere else — a "detached" copy of a
+// closure for a new thread — is a second binding: writes through one are not
+// seen through the other.
+func cellsAreMadeByTheVM(c *core.Ctx) {
+	p := c.P
+	newCell := core.LookupFunc(p.Pkg("object"), "NewCell")
+	if newCell == nil {
+		core.Undecidedf("object.NewCell not found")
+	}
+	nc := p.SSAFunc(newCell)
+	dispatch := p.SSAFunc(dispatchFunc(p))
+	n := 0
+	for _, fn := range repoFns(p) {
+		for _, b := range fn.Blocks {
+			for _, in := range b.Instrs {
+				ci, ok := in.(ssa.CallInstruction)
+				if !ok || ci.Common().StaticCallee() != nc {
+					continue
+				}
+				n++
+				c.Check(fn == dispatch, core.SSAName(fn)+"|NewCell|made-by-the-dispatch-function", p.Pos(in.Pos()),
+					"cells are created by the VM's MakeCell handler only; "+fn.Name()+" creating one makes a second, unshared binding")
+			}
+		}
+	}
+	// composite literals of Cell outside its constructor
+	cellT := core.LookupType(p.Pkg("object"), "Cell")
+	if cellT != nil {
+		for _, fn := range repoFns(p) {
+			if fn == nc {
+				continue
+			}
+			for _, b := range fn.Blocks {
+				for _, in := range b.Instrs {
+					if al, ok := in.(*ssa.Alloc); ok && al.Heap {
+						if pt, ok := al.Type().Underlying().(*types.Pointer); ok && core.NamedOf(pt.Elem()) == cellT {
+							n++
+							c.Fail(core.SSAName(fn)+"|Cell-literal", p.Pos(al.Pos()), fn.Name()+" allocates an object.Cell itself")
+						}
+					}
+				}
+			}
+		}
+	}
+	if n == 0 {
+		core.Undecidedf("object.NewCell is never called")
+	}
+}
+
+// maybeNilLocalsAreTested (C03-R13): on the surface that no recover protects, a
+// pointer that is nil on one of the paths merging into it (declared with `var`,
+// assigned only in some branches) is tested before it is dereferenced.
+func maybeNilLocalsAreTested(c *core.Ctx) {
+	p := c.P
+	surf, _ := unprotectedSurface(p)
+	var fns []*ssa.Function
+	for f := range surf {
+		if f.Blocks != nil {
+			fns = append(fns, f)
+		}
+	}
+	sortFns(fns)
+	n := 0
+	for _, fn := range fns {
+		k := 0
+		for _, b := range fn.Blocks {
+			for _, in := range b.Instrs {
+				phi, ok := in.(*ssa.Phi)
+				if !ok {
+					continue
+				}
+				if _, isPtr := phi.Type().Underlying().(*types.Pointer); !isPtr {
+					continue
+				}
+				hasNil, hasVal := false, false
+				for _, e := range phi.Edges {
+					if k2, isC := e.(*ssa.Const); isC && k2.IsNil() {
+						hasNil = true
+					} else {
+						hasVal = true
+					}
+				}
+				if !hasNil || !hasVal || phi.Referrers() == nil {
+					continue
+				}
+				for _, r := range *phi.Referrers() {
+					var risky ssa.Instruction
+					switch x := r.(type) {
+					case *ssa.Call:
+						if len(x.Call.Args) > 0 && x.Call.Args[0] == ssa.Value(phi) && !x.Call.IsInvoke() {
+							if cal := x.Call.StaticCallee(); cal != nil && cal.Signature.Recv() != nil {
+								// a method with a pointer receiver that reads a field
+								risky = x
+							}
+						}
+					case *ssa.FieldAddr:
+						if x.X == ssa.Value(phi) {
+							risky = x
+						}
+					}
+					if risky == nil {
+						continue
+					}
+					n++
+					if nonNilGuardDominates(phi, risky.Block()) {
+						continue
+					}
+					if tokenGuardCoversChain(p, fn) {
+						c.Pass(core.SSAName(fn)+"|maybe-nil|token-guard-covers-dispatch", p.Pos(risky.Pos()), "the nil path is excluded: the function returns early unless the next token is one of the kinds its if/else-if chain handles")
+						continue
+					}
+					k++
+					c.Fail(core.SSAName(fn)+"|maybe-nil#"+itoa(k), p.Pos(risky.Pos()),
+						fn.Name()+" dereferences a pointer that is nil on one of the paths that reach this point (it is assigned only in some branches) without testing it")
+				}
+			}
+		}
+		if k == 0 {
+			// one obligation per function that has such merges
+		}
+	}
+	if n == 0 {
+		c.Pass("no-maybe-nil-dereference", "surface", "no dereference of a pointer merged with nil on the unprotected surface")
+	}
+	c.Stat("maybe_nil_dereferences_judged", n)
+}
+
+func sortFns(fns []*ssa.Function) {
+	for i := 1; i < len(fns); i++ {
+		for j := i; j > 0 && core.SSAName(fns[j]) < core.SSAName(fns[j-1]); j-- {
+			fns[j], fns[j-1] = fns[j-1], fns[j]
+		}
+	}
+}
+
+// tokenGuardCoversChain: the function begins with `if !peekTokenIs(A) && !peekTokenIs(B) ... { return }`,
+// advances once, and then dispatches with `if curTokenIs(A) {...} else if curTokenIs(B) {...}`
+// over a superset of {A, B, ...}: the fall-through of the chain is unreachable.
+func tokenGuardCoversChain(p *core.Program, fn *ssa.Function) bool {
+	o, _ := fn.Object().(*types.Func)
+	if o == nil {
+		return false
+	}
+	fd := p.Decl(o)
+	pk := p.DeclPkg(o)
+	if fd == nil || pk == nil || fd.Body == nil {
+		return false
+	}
+	info := pk.TypesInfo
+	tokOf := func(e ast.Expr, method string) (string, bool) {
+		ce, ok := ast.Unparen(e).(*ast.CallExpr)
+		if !ok || len(ce.Args) != 1 {
+			return "", false
+		}
+		cal := calleeOf(info, ce)
+		if cal == nil || cal.Name() != method {
+			return "", false
+		}
+		if k, _ := objOf(info, ce.Args[0]).(*types.Const); k != nil {
+			return k.Name(), true
+		}
+		return "", false
+	}
+	guard := map[string]bool{}
+	var guardIf *ast.IfStmt
+	for _, st := range fd.Body.List {
+		ifs, ok := st.(*ast.IfStmt)
+		if !ok {
+			continue
+		}
+		// conjunction of negated peekTokenIs
+		okAll := true
+		var conj func(e ast.Expr)
+		conj = func(e ast.Expr) {
+			e = ast.Unparen(e)
+			if be, ok := e.(*ast.BinaryExpr); ok && be.Op == token.LAND {
+				conj(be.X)
+				conj(be.Y)
+				return
+			}
+			if ue, ok := e.(*ast.UnaryExpr); ok && ue.Op == token.NOT {
+				if t, ok := tokOf(ue.X, "peekTokenIs"); ok {
+					guard[t] = true
+					return
+				}
+			}
+			okAll = false
+		}
+		conj(ifs.Cond)
+		returns := false
+		for _, bs := range ifs.Body.List {
+			if _, ok := bs.(*ast.ReturnStmt); ok {
+				returns = true
+			}
+		}
+		if okAll && returns && len(guard) > 0 {
+			guardIf = ifs
+			break
+		}
+		guard = map[string]bool{}
+	}
+	if guardIf == nil {
+		return false
+	}
+	// exactly one nextToken between the guard and the chain, then the chain
+	handled := map[string]bool{}
+	advances := 0
+	for _, st := range fd.Body.List {
+		if st.Pos() <= guardIf.Pos() {
+			continue
+		}
+		if es, ok := st.(*ast.ExprStmt); ok {
+			if ce, ok := es.X.(*ast.CallExpr); ok {
+				if cal := calleeOf(info, ce); cal != nil && cal.Name() == "nextToken" {
+					advances++
+					continue
+				}
+			}
+		}
+		if ifs, ok := st.(*ast.IfStmt); ok {
+			cur := ifs
+			for cur != nil {
+				if t, ok := tokOf(cur.Cond, "curTokenIs"); ok {
+					handled[t] = true
+				} else {
+					break
+				}
+				next, _ := cur.Else.(*ast.IfStmt)
+				cur = next
+			}
+			if len(handled) > 0 {
+				break
+			}
+		}
+	}
+	if advances != 1 || len(handled) == 0 {
+		return false
+	}
+	for t := range guard {
+		if !handled[t] {
+			return false
+		}
+	}
+	return true
+}
+
+// noWritesUnderReadLock (C09-R9, C03-R14): a map that lives outside the function
+// is not written while only the read half of a sync.RWMutex is held.  RLock
+// admits any number of holders; two of them inserting at once is a "concurrent
+// map writes" fatal error that no recover can stop.
+func noWritesUnderReadLock(c *core.Ctx) {
+	p := c.P
+	n := 0
+	for _, fn := range repoFns(p) {
+		usesR := false
+		for _, b := range fn.Blocks {
+			for _, in := range b.Instrs {
+				if ci, ok := in.(ssa.CallInstruction); ok {
+					if cal := ci.Common().StaticCallee(); cal != nil && cal.Name() == "RLock" && cal.Pkg != nil && cal.Pkg.Pkg != nil && cal.Pkg.Pkg.Path() == "sync" {
+						usesR = true
+					}
+				}
+			}
+		}
+		if !usesR {
+			continue
+		}
+		n++
+		// forward may-analysis: read-locked (by RLock, not yet RUnlocked on this path); write-locked likewise
+		type state struct{ r, w bool }
+		in := map[*ssa.BasicBlock]state{}
+		seen := map[*ssa.BasicBlock]bool{}
+		work := []*ssa.BasicBlock{fn.Blocks[0]}
+		bad := ""
+		for len(work) > 0 {
+			b := work[0]
+			work = work[1:]
+			cur := in[b]
+			for _, ins := range b.Instrs {
+				if ci, ok := ins.(ssa.CallInstruction); ok {
+					if _, isDefer := ins.(*ssa.Defer); !isDefer {
+						if cal := ci.Common().StaticCallee(); cal != nil && cal.Pkg != nil && cal.Pkg.Pkg != nil && cal.Pkg.Pkg.Path() == "sync" {
+							switch cal.Name() {
+							case "RLock":
+								cur.r = true
+							case "RUnlock":
+								cur.r = false
+							case "Lock":
+								cur.w = true
+							case "Unlock":
+								cur.w = false
+							}
+						}
+					}
+				}
+				if cur.r && !cur.w {
+					var m ssa.Value
+					switch x := ins.(type) {
+					case *ssa.MapUpdate:
+						m = x.Map
+					case *ssa.Call:
+						if bi, ok := x.Call.Value.(*ssa.Builtin); ok && bi.Name() == "delete" {
+							m = x.Call.Args[0]
+						}
+					}
+					if m != nil {
+						for _, o := range core.Origins(m) {
+							if u, ok := o.(*ssa.UnOp); ok {
+								switch u.X.(type) {
+								case *ssa.Global, *ssa.FieldAddr:
+									bad = p.Pos(ins.Pos())
+								}
+							}
+						}
+					}
+				}
+			}
+			for _, s := range b.Succs {
+				ns := state{in[s].r || cur.r, in[s].w && cur.w}
+				if !seen[s] {
+					ns = cur
+				}
+				if !seen[s] || ns != in[s] {
+					in[s] = ns
+					seen[s] = true
+					work = append(work, s)
+				}
+			}
+		}
+		c.Check(bad == "", core.SSAName(fn)+"|no-write-under-RLock", p.Pos(fn.Pos()),
+			fn.Name()+" writes shared maps only under the write lock"+ifs(bad != "", "; the map write at "+bad+" happens while only RLock is held"))
+	}
+	if n == 0 {
+		c.Pass("no-RLock-users", "repo", "no function takes a read lock")
+	}
+	c.Stat("rlock_users", n)
+}
